@@ -333,8 +333,34 @@ def r4(ctx: Ctx, mp: FuncInfo, ps: FuncInfo) -> None:
     bad = [t for t in tests if any(isinstance(n, ast.Name) and n.id == 'line' for n in ast.walk(t.test))]
     ctx.check(not bad, 'C17.R4', mp, 'classify-stripped', 'header / assignment / property tests look at the stripped line', f'{src(bad[0].test)[:50] if bad else ""!r} looks at the raw line (indentation / line endings change the result)')
     text = src(loop)
-    ctx.check('key = key.strip().lower()' in text and 'value = value.strip()' in text, 'C17.R4', mp, 'key-normalised', 'property keys are stripped and lower-cased, values stripped',
-              'property key / value are not normalised')
+    fl_ = get_flow(ctx.proj, mp)
+    keytests = [t_ for t_ in ast.walk(loop) if isinstance(t_, ast.Compare) and isinstance(t_.left, ast.Name) and len(t_.ops) == 1 and isinstance(t_.ops[0], ast.Eq)
+                and isinstance(t_.comparators[0], ast.Constant) and t_.comparators[0].value in ('match', 'category', 'let', 'tags')]
+    from ._tables import table_of
+
+    def slot_of(t_):
+        """'match_expr' / 'category' when the store goes to that slot of the rule record, directly or through a constant key -> slot table"""
+        if isinstance(t_.slice, ast.Constant):
+            return t_.slice.value if t_.slice.value in ('match_expr', 'category') else None
+        tb = table_of(t_.slice, mp.module, mp.cls)
+        if tb is not None and 'match_expr' in tb[0].values():
+            return 'match_expr'
+        return None
+    vstores = [s_ for s_ in ast.walk(loop) if isinstance(s_, ast.Assign) and isinstance(s_.targets[0], ast.Subscript) and slot_of(s_.targets[0]) and isinstance(s_.value, ast.Name)]
+    if not keytests or not vstores:
+        ctx.unknown('C17.R4', mp, 'the property dispatch (key == \'match\' …) / the stores of the property values were not found')
+    k_ok = all({'call:strip', 'call:lower'} <= fl_.atoms(t_.left, t_) for t_ in keytests)
+    v_ok = all('call:strip' in fl_.atoms(s_.value, s_) for s_ in vstores)
+    ctx.check(k_ok and v_ok, 'C17.R4', mp, 'key-normalised', 'property keys are stripped and lower-cased, values stripped',
+              'property key / value are not normalised' + ('' if k_ok else ' (the key compared with the property names is not stripped and lower-cased)') + ('' if v_ok else ' (a stored value is not stripped)'))
+    # … and nothing else happens to a value on its way into the rule: it is cut out of the line and stripped, by string methods only.  A helper of
+    # the package in between (inline-comment removal, unquoting, …) rewrites values that legitimately contain what it looks for
+    PLAIN = {'strip', 'lstrip', 'rstrip', 'split', 'rsplit', 'partition', 'rpartition', 'splitlines', 'enumerate', 'group', 'groups', 'match', 'read_text', 'read'}
+    for s_ in vstores:
+        odd = sorted(a_[5:] for a_ in fl_.atoms(s_.value, s_) if a_.startswith('call:') and a_[5:] not in PLAIN)
+        ctx.check(not odd, 'C17.R4', mp, f'value-as-written:{slot_of(s_.targets[0])}', 'the property value is the text after the colon, stripped',
+                  f'{src(s_)!r}: the value passes through {odd} before it is stored: a match expression / name that contains what that step removes or rewrites '
+                  f'(a `#`, a quote) is stored damaged and the rule is rejected or matches something else', s_)
     ctx.check("rule_name = stripped[1:-1].strip()" in text, 'C17.R4', mp, 'name-stripped', 'rule names are stripped', 'rule names keep surrounding blanks')
     ctx.check("content.split('\\n')" in src(mp.node), 'C17.R4', mp, 'lines', 'file is split on newlines (a trailing \\r is removed by strip)', 'unexpected line splitting')
     # views
